@@ -24,6 +24,7 @@ class SimTransport(asyncio.Transport):
         self.server_open = True
         self.rx = bytearray()         # bytes written by the client, not yet framed
         self.client_addr = ("client", 40000 + self.id)
+        self.dead = False             # owner process was killed: nothing goes in or out any more
 
     # ---- client side API (asyncio.Transport) ----------------------------------
     def get_extra_info(self, name, default=None):
@@ -37,7 +38,7 @@ class SimTransport(asyncio.Transport):
         return self.closing or self.lost
 
     def write(self, data):
-        if self.closing or self.lost:
+        if self.closing or self.lost or self.dead:
             return
         if not self.server_open:
             # peer is gone: asyncio would report on a later read; deliver loss
@@ -80,6 +81,9 @@ class SimTransport(asyncio.Transport):
         if self.closing or self.lost:
             return
         self.closing = True
+        if self.dead:
+            self.loop.call_soon(self._connection_lost, None)
+            return          # a dead process sends no FIN the broker could react to in time
         self.server_open = False
         self.net.cluster.on_client_close(self)
         self.loop.call_soon(self._connection_lost, None)
@@ -97,7 +101,7 @@ class SimTransport(asyncio.Transport):
     # ---- server side ------------------------------------------------------------
     def deliver(self, data: bytes):
         """bytes from the broker arrive at the client (call from a loop callback)"""
-        if self.closing or self.lost:
+        if self.closing or self.lost or self.dead:
             return
         self.protocol.data_received(data)
 
@@ -137,7 +141,8 @@ class SimNet:
 
     async def create_connection(self, loop, protocol_factory, host, port, **kw):
         node = self.cluster.node_at(host, port)
-        owner = loop.owner
+        from .simloop import OWNER
+        owner = OWNER.get() if OWNER.get() is not None else loop.owner
         verdict = self.cluster.on_connect(node, host, port)
         await asyncio.sleep(self.connect_delay)
         if verdict == "refuse" or node is None:
